@@ -33,6 +33,24 @@ CHECKS = {
        '= fidelity for all 256^n inputs of those lengths.',
   note=TRUST + 'Outside: lengths above the bound, maildir re-serialisation, header value parsing by the email package, BINARY decoding.',
   technique='symbolic execution of the real Python code with z3 (per-path SMT proof obligations), bounded by message length'),
+ 'C06': dict(
+  text='Totality of the real parsers by bounded symbolic execution: every unit parser (Tag, Atom, Number, Nil, QuotedString, '
+       'LiteralString, String, List, AString, Mailbox, SequenceSet, Flag, DateTime, StatusAttribute, FetchAttribute, '
+       'SearchKey, ObjectId, ExtensionOptions) on all buffers up to 4 (quick) / 6 (thorough) bytes, Commands.parse behind '
+       '30 grammar-guided prefixes followed by up to 2-6 symbolic bytes with the literal continuation loop, IDLE DONE, '
+       'and the ManageSieve command parser; a path on which anything but NotParseable/ParsingInterrupt escapes or the loop '
+       'budget is exceeded is a counterexample, replayed on plain pymap under a wall-clock alarm.',
+  note=TRUST + 'Codecs are exact models validated against CPython; strptime and unknown codec names are stubs (documented '
+       'contract). Outside: rendering of stored messages through the email package, lines near 64 KiB, deep nesting.',
+  technique='symbolic execution of the real parsers with z3 (path exhaustion, loop-fuel monitor), bounded by buffer length'),
+ 'C07': dict(
+  text='The real response serialisers (String.build, QuotedString/LiteralString, AString/Mailbox + modutf7_encode, List, '
+       'LIST/STATUS/ID/FLAGS/FETCH responses, BAD lines for arbitrary client lines, address lists) executed on symbolic '
+       'client-chosen data up to the bound; the symbolic output is checked by an independent strict recogniser (CRLF only '
+       'at line end, literal count, quoted-string content, balanced lists); every path is decided.',
+  note=TRUST + 'Recogniser checks exactly the items the property lists (8-bit bytes in quoted strings are not flagged). '
+       'Outside: whole-session streams, structures produced inside the email package.',
+  technique='symbolic execution of the real serialisers with z3, independent grammar recogniser as oracle'),
  'C18': dict(
   text='Metamorphic checks by bounded symbolic execution of the real parsers: parse/serialise/re-parse identity for '
        'QuotedString, AString, Flag, Number, SequenceSet over all buffers up to the bound; LOGIN with the user id '
